@@ -17,7 +17,7 @@ def main():
     ck.bounds = dict(tables='2x2 rows with 0..1 token; 2x1 / 1x2 rows with 1..2 tokens', joins='five set joins',
                      thresholds='grid and ordered pairs from it')
     ck.outside += ['bundled books/person data and large synthetic tables (concrete runs are not this '
-                   'technique)', 'edit-distance join laws (see C03 for its direct oracle)']
+                   'technique)', 'edit-distance strings longer than 2 characters']
     for e in stages.SET_JOINS:
         ovl = e == 'overlap_join'
         thr = [1, 2] if ovl else [0.5, 1.0]
@@ -32,6 +32,13 @@ def main():
                                                          threshold_pairs=pairs)))
         ck.e2('partition-%s' % e, h_laws.make_laws(dict(entry=e, law='partition', nl=2, nr=2, k=1, kmin=0,
                                                         thresholds=thr)))
+    # the edit-distance join: same three laws on symbolic strings (real q-gram tokenizer)
+    from harness import h_ed
+    edb = dict(nl=1, nr=1, lens=[1, 2] if quick else [0, 1, 2], q=[2], padding=[True], props=['C13'])
+    ck.e2('ed-transpose', h_ed.make_rel(dict(edb, law='transpose', taus=[1] if quick else [0, 1, 2])))
+    ck.e2('ed-refine', h_ed.make_rel(dict(edb, law='refine', taus=[2], tau2=1)))
+    ck.e2('ed-partition', h_ed.make_rel(dict(edb, law='partition', taus=[1] if quick else [1, 2])))
+    ck.e2('ed-transpose-1x2', h_ed.make_rel(dict(edb, law='transpose', nl=1, nr=2, lens_l=[2], lens_r=[1], taus=[1])))
     ck.finish()
 
 
